@@ -73,7 +73,7 @@ def inventory(fx, bodies):
                 m = t['msg']
                 mk = m['k']
                 if mk == 'Overflow':
-                    a, bb_ = iv.operand(m['a']), iv.operand(m['b'])
+                    a, bb_ = iv.operand(m['a'], (), bi), iv.operand(m['b'], (), bi)
                     rty = m['a'].get('ty') or (m['a']['p']['ty'] if 'p' in m['a'] else None)
                     rng = IV.arith(m['op'], a, bb_)
                     what = '%s(%s, %s)' % (m['op'], show(strip_casts(r.operand(m['a'])))[:60], show(strip_casts(r.operand(m['b'])))[:60])
@@ -86,15 +86,26 @@ def inventory(fx, bodies):
                                     {'a': a, 'b': bb_, 'result': rng, 'ty': rty, 'safe_by_width': safe}))
                 elif mk == 'BoundsCheck':
                     what = 'index %s of len %s' % (show(r.operand(m['index']))[:60], show(r.operand(m['len']))[:60])
-                    idx, ln = iv.operand(m['index']), iv.operand(m['len'])
+                    idx, ln = iv.operand(m['index'], (), bi), iv.operand(m['len'], (), bi)
                     safe = idx is not None and ln is not None and idx[1] < ln[0]
                     out.append(Site('bounds', b, bi, what, t['span'], t['macros'], {'index': idx, 'len': ln, 'safe_by_width': safe,
                                                                                    'index_term': r.operand(m['index']), 'len_term': r.operand(m['len'])}))
                 elif mk in ('DivisionByZero', 'RemainderByZero'):
-                    d = iv.operand(m['a'])
-                    safe = d is not None and (d[0] > 0 or d[1] < 0)
-                    out.append(Site('div0', b, bi, 'divisor %s' % show(r.operand(m['a']))[:80], t['span'], t['macros'],
-                                    {'divisor': d, 'safe_by_width': safe, 'term': r.operand(m['a'])}))
+                    # the assert condition is `divisor == 0`; the message operand is the dividend
+                    ct = r.operand(t['cond'])
+                    dv = None
+                    dterm = None
+                    co = t['cond']
+                    if co['k'] in ('copy', 'move') and not co['p']['p']:
+                        ds = r.defs.get(co['p']['l'], [])
+                        if len(ds) == 1 and ds[0][1] == 'rv' and ds[0][2]['k'] == 'bin' and ds[0][2]['op'] == 'Eq':
+                            dv = iv.operand(ds[0][2]['a'], (), bi)
+                            dterm = r.operand(ds[0][2]['a'])
+                    elif co['k'] == 'const':
+                        dv = (1, 1) if co.get('v') == 0 else (0, 0)
+                    safe = dv is not None and (dv[0] > 0 or dv[1] < 0)
+                    out.append(Site('div0', b, bi, 'divisor %s' % (show(dterm)[:80] if dterm else show(ct)[:80]), t['span'], t['macros'],
+                                    {'divisor': dv, 'safe_by_width': safe, 'term': dterm}))
                 elif mk == 'OverflowNeg':
                     out.append(Site('neg', b, bi, show(r.operand(m['a']))[:80], t['span'], t['macros'], {}))
                 else:
@@ -116,7 +127,7 @@ def inventory(fx, bodies):
                 if name in ALLOC:
                     at = q.arg_terms(c)
                     ai, ek = ALLOC[name]
-                    sz = iv.operand(c.args[ai]) if ai is not None and ai < len(c.args) else None
+                    sz = iv.operand(c.args[ai], (), bi) if ai is not None and ai < len(c.args) else None
                     esz = None
                     if c.fn and c.fn.get('arg_sizes'):
                         gs = [s for s in c.fn['arg_sizes'] if s is not None]
